@@ -145,6 +145,10 @@ def gamma(c, a, b):
         return ("opt", gamma(c, a[1], b[1]), gamma(c, a[2], b[2]))
     if a is None and b is None:
         return None
+    if a is True and b is False:
+        return c
+    if a is False and b is True:
+        return b_not(c)
     return ("g", c, a, b)
 
 
@@ -285,10 +289,10 @@ class Evaluator:
         m = re.match(r"std::vector<(.+), std::allocator<.+> >$", t)
         if m:
             return Obj(t, {"_M_elems": Arr([self.symbolic(m.group(1), "%s[%d]" % (prefix, i), qtype) for i in range(3)])})
-        if t in ("std::basic_string<char>", "std::basic_string_view<char>", "std::string", "std::string_view",
-                 "std::basic_string<char, std::char_traits<char>, std::allocator<char> >",
-                 "std::basic_string_view<char, std::char_traits<char> >"):
+        if t.startswith("std::basic_string<char") or t.startswith("std::basic_string_view<char"):
             return Str([("strsym", prefix)])
+        if t.startswith("std::basic_ostream<"):
+            return Obj("std::ostream", {"out": Arr([])})
         if t in _INT_TYPES or t == "unsigned long":
             return ("isym", prefix)
         raise Inconclusive("cannot build a symbolic value of type " + t)
@@ -1141,6 +1145,8 @@ class Evaluator:
                 return v
             if isinstance(v, tuple) and v and v[0] == "ptr":
                 raise Inconclusive("string from pointer")
+            if isinstance(v, tuple) and v and v[0] in ("fn", "g"):
+                return Str([("sv", v)])
             raise Inconclusive("string constructor from " + repr(v)[:60])
         if tname == "std::nullopt_t":
             return ("nullopt",)
@@ -1343,6 +1349,34 @@ _SCOPE_END = _Sentinel("SCOPE_END")
 
 # ------------------------------------------------------------------------------------------------
 # term utilities
+
+def assume(t, cond, truth):
+    """Simplify a term under the assumption that boolean term `cond` has the given truth value."""
+    if t == cond:
+        return truth
+    if isinstance(t, tuple) and t:
+        if t[0] == "g":
+            c = assume(t[1], cond, truth)
+            if c is True:
+                return assume(t[2], cond, truth)
+            if c is False:
+                return assume(t[3], cond, truth)
+            return gamma(c, assume(t[2], cond, truth), assume(t[3], cond, truth))
+        if t[0] == "not":
+            return b_not(assume(t[1], cond, truth))
+        if t[0] == "and":
+            return b_and(assume(t[1], cond, truth), assume(t[2], cond, truth))
+        if t[0] == "or":
+            return b_or(assume(t[1], cond, truth), assume(t[2], cond, truth))
+        if t[0] in ("c", "leaf", "enum", "pi"):
+            return t
+        return tuple(assume(x, cond, truth) if isinstance(x, (tuple, Obj, Arr)) else x for x in t)
+    if isinstance(t, Obj):
+        return Obj(t.type, {k: assume(v, cond, truth) for k, v in t.f.items()})
+    if isinstance(t, Arr):
+        return Arr([assume(v, cond, truth) for v in t.items])
+    return t
+
 
 def leaves(t, acc=None):
     if acc is None:
